@@ -496,10 +496,8 @@ def eval_units(case):
         tvars = [("temp=float K", T), ("temp=Temperature(T,'K')", Temperature(T, units="K")),
                  ("temp=Temperature(T-273.15,'celsius')", Temperature(T - 273.15, units="celsius")),
                  ("temp=Temperature(T-273.15,'C')", Temperature(T - 273.15, units="C"))]
-        if via in ("function", "calc_thermo"):
-            pass
-        else:
-            tvars = tvars[:3]
+        if via not in ("function", "calc_thermo"):
+            tvars = tvars[2:3]          # the delegating entry points: the non-default unit only
         for label, tv in tvars:
             compare(key, f"{via}, {label}", ref, lambda tv=tv, via=via: run_thermo(sym, co, fr, dict(kw, temp=tv), via=via))
         for name in ("freq_shift", "w0"):
@@ -512,7 +510,7 @@ def eval_units(case):
         # freezing point and below: 0 C and negative Celsius through the public method
         for Tk in (273.15, 250.0):
             r2 = run_thermo(sym, co, fr, dict(kw, temp=Tk))[:2]
-            for via in ("function", "calc_thermo"):
+            for via in ("calc_thermo",):
                 key = "calculate_thermo_cont|number-vs-unit-value" if via == "function" else f"Species.{via}|number-vs-unit-value"
                 compare(key, f"{via}, temp=Temperature({Tk - 273.15},'celsius') vs {Tk} K", r2,
                         lambda Tk=Tk, via=via: run_thermo(sym, co, fr, dict(kw, temp=Temperature(Tk - 273.15, units="celsius")), via=via))
@@ -929,7 +927,7 @@ def proofs_step(ctx):
             assm, out = ctx.print_assumptions("AV.C12.Props", names)
             if assm is not None:
                 info.update(build_ok=True, assumptions=assm)
-                ctx.cov["discharged"] += len(names)
+                ctx.cov["discharged"] = len(names)
                 ctx.cov["closed_theorems"] = sum(1 for t in assm.values() if "Closed under the global context" in t)
                 ctx.cov["axioms_print_assumptions"] = sorted(
                     {ln.split(":")[0].strip() for t in assm.values() if "Closed under the global context" not in t
